@@ -96,12 +96,26 @@ def run_property(pid, tier, only=None):
     # baseline: every expected obligation name must have been generated
     base_path = os.path.join(ROOT, 'baseline', '%s.json' % pid)
     missing = []
+    failed_fns = [e.split(': ')[0] for e in errors]
     if os.path.exists(base_path) and only is None:
         with open(base_path) as f:
             base = json.load(f)
         missing = [n for n in base['obligations'] if n not in groups]
+        by_fn = {}
         for n in missing:
-            errors.append('baseline obligation not generated (stale anchor?): %s' % n)
+            by_fn.setdefault(n.split('#')[0], []).append(n)
+        for fn, ns in by_fn.items():
+            if fn in failed_fns:
+                continue        # already reported: the function could not be brought under the verifier
+            errors.append('%d baseline obligations of %s not generated (stale anchor?): %s ...' % (len(ns), fn, ns[0]))
+    bounded_fallback = None
+    if errors and spec.get('replay'):
+        # a function under contract fell outside the verifier's reach (unsupported construct, engine error):
+        # bounded stand-in = the property's failing-input search on the real code (never counted as proved)
+        bounded_fallback = run_replay_search(pid, spec['replay'], 'bounded-fallback', [{'checker_errors': errors[:5]}])
+        spec['replay_result'] = bounded_fallback
+        if bounded_fallback:
+            failed.append('bounded-fallback:' + ';'.join(sorted(set(failed_fns)))[:200])
     # extra checks (scans, bounded stand-ins)
     extra = {}
     for name, fn in spec.get('extra', []):
@@ -159,6 +173,7 @@ def run_property(pid, tier, only=None):
             'inlined': sorted(stats_all['inlined']), 'dropped_by_extraction': sorted(stats_all['dropped']) + props.DROPPED,
             'dependency_contracts_used': sorted(stats_all['deps_used']) + sorted(stats_all['assumed_contracts']),
             'extra_checks': extra,
+            'bounded_fallback': ({'ran': True, 'failing_input_found': bool(bounded_fallback)} if errors and spec.get('replay') else {'ran': False}),
             'samples': [{'obligation': n, 'clause': groups[n][0][0].info.get('text'), 'instances': len(groups[n])}
                         for n in list(groups)[:6]],
             'checker_errors': errors,
